@@ -343,6 +343,9 @@ def run(ctx):
                                 "None / a default / nothing anywhere in lib or bin")
     from . import ioerrors
     ioerrors.rule(ctx, "C17-read-errors")
+    ctx.rule("C17-file-text", "the reader is handed the file's text (LF or CRLF line ends, with or without a final newline): table of the "
+                              "character stream file_char_stream yields for eleven file texts, the file system answered from the text")
+    ioerrors.rule_stream(ctx, "C17-file-text")
     ctx.rule("C17-same-path", "eval_file = record the program directory, then eval(file_char_stream(path)?)")
     efn = fb.find("interpreter::interpreter::Interpreter::eval_file")
     fcs = [(b, t) for b, t in efn.calls() if callee_matches(t, "io::file_char_stream")]
